@@ -53,7 +53,8 @@ import CatVerif.Proofs.Units
 import CatVerif.Proofs.UnitsHist
 import CatVerif.Proofs.UnitsU
 import CatVerif.Proofs.UnitsM
-import CatVerif.Proofs.Steps
+import CatVerif.Proofs.Steps.Wait
+import CatVerif.Proofs.Steps.Output
 namespace Cat
 open St
 
